@@ -9,7 +9,7 @@ package config
 // C20: file and database integrations are merged by name and the file wins on
 // a clash: a result whose name is the name of a file integration IS a file
 // integration (never the database row of that name).
-//@ func (Root).AllIntegrations props=C20
+//@ func (Root).AllIntegrations props=C20,C05,C06
 //@   ensures [file-wins] result1 == nil ==> (forall k int, j int :: 0 <= k && k < len(result0) && 0 <= j && j < len(conf.Integrations) && result0[k].Name == conf.Integrations[j].Name ==> (exists j2 int :: 0 <= j2 && j2 < len(conf.Integrations) && result0[k] == conf.Integrations[j2]))
 //@   loop#0 invariant forall x string :: has(uniq, x) ==> uniq[x].Name == x
 //@   loop#1 invariant forall x string :: has(uniq, x) ==> uniq[x].Name == x
